@@ -30,7 +30,7 @@ from decimal import Decimal
 import math
 from measured import Measurement
 U1, U2 = measured.si.Meter, measured.si.Meter
-a, s, n = 2.0, 0.125, -3
+a, s, n = 2.0, 1.0, -3
 expr = lambda: Measurement(a * U1, s) ** n
 plain_expr = lambda: (a * U1) ** n
 sigma = abs(n * float(a) ** (n - 1) * float(s)) if n != 0 else 0.0
